@@ -44,7 +44,7 @@ func runC12(c *Ctx) {
 	ruleTransactionPairing(c, "C12.1")
 
 	// ---- C12.2
-	c.Rule("C12.2", "completion belongs to the remover: each call of (*Transaction).WriteResult — followed through forwarding helpers to the function that looks the transaction up — has as receiver result #0 of a trMap.Find(key) made earlier on the path, with trMap.Delete of the same key (or of that transaction's own Key) between the Find and the completion, Client.mutexTrMap held at the Find and at the Delete and no Unlock of it between them", 3)
+	c.Rule("C12.2", "completion belongs to the remover: each call of (*Transaction).WriteResult — followed through forwarding helpers to the function that looks the transaction up — has as receiver result #0 of a trMap.Find(key) made earlier on the path, with trMap.Delete of the same key (or of that transaction's own Key) between the Find and the completion, Client.mutexTrMap held at the Find and at the Delete and no Unlock of it between them", 2)
 	{
 		isTxOp := func(in ssa.Instruction) bool {
 			ci, ok := in.(ssa.CallInstruction)
